@@ -73,10 +73,29 @@ def run_property(prop, tier, jobs):
         print('checker error: unchecked assumptions in contracts: %s' % bad)
         return 3
     timeout_ms = 60000 if tier == 'thorough' else 20000
-    tasks = [(q, prop, timeout_ms, tier == 'thorough') for q in fns]
     ctx = mp.get_context('fork')
-    with ctx.Pool(min(jobs, len(tasks))) as pool:
-        results = pool.map(worker, tasks, chunksize=1)
+    results = []
+    done = set()
+    todo = list(fns)
+    pending_contracts = set()
+    while todo:
+        tasks = [(q, prop, timeout_ms, tier == 'thorough') for q in todo]
+        with ctx.Pool(min(jobs, len(tasks))) as pool:
+            batch = pool.map(worker, tasks, chunksize=1)
+        results.extend(batch)
+        done |= set(todo)
+        # callee contracts relied upon must themselves be proved from the current source (modular soundness)
+        todo = []
+        for r in batch:
+            for q in r['used_contracts']:
+                c = REG.get(q)
+                if q in done or q in todo or c is None:
+                    continue
+                if getattr(c, 'assumed', False) or not getattr(c, 'body_proved', True):
+                    pending_contracts.add(q)
+                    continue
+                todo.append(q)
+    fns = sorted(done)
     # ---- collect
     total = discharged = 0
     failing = []
@@ -140,32 +159,41 @@ def run_property(prop, tier, jobs):
     if vacuous:
         print('checker error: vacuous hypotheses (precondition or path refutable): %s' % vacuous[:5])
         exit_code = 3
-    # ---- real-code findings (replayed inputs)
+    # ---- violations: one per function (failing input from the real code where there is one)
+    by_fn = {}
     for f in rc.get('failures', []):
-        kf = match_known(known, prop, f)
-        if kf:
-            lines.append('KNOWN-FINDING: property=%s %s' % (prop, kf['what']))
-            continue
-        path = write_replay(prop, f, None)
-        lines.append('VIOLATION property=%s replay=%s' % (prop, path))
-        violations += 1
-    # ---- failing obligations
-    reported = set()
+        by_fn.setdefault(f.get('fn'), {'inputs': [], 'obs': []})['inputs'].append(f)
     for r, ob in failing:
-        key = (r['fn'], ob['name'])
-        if key in reported:
-            continue
-        reported.add(key)
-        # does a replayed real-code failure already explain it?
-        explained = [f for f in rc.get('failures', []) if f.get('fn') == r['fn']]
-        if explained:
-            kfs = [match_known(known, prop, f) for f in explained]
-            if all(kfs):
-                continue        # the failing clause is inside the region of a listed known finding
-            continue            # already reported above with a concrete input
-        path = write_replay(prop, None, (r, ob))
-        lines.append('VIOLATION property=%s replay=%s no-failing-input-found' % (prop, path))
-        violations += 1
+        by_fn.setdefault(r['fn'], {'inputs': [], 'obs': []})['obs'].append((r, ob))
+    for fn, d in sorted(by_fn.items(), key=lambda kv: str(kv[0])):
+        new_inputs = []
+        for f in d['inputs']:
+            kf = match_known(known, prop, f)
+            if kf:
+                lines.append('KNOWN-FINDING: property=%s %s' % (prop, kf['what']))
+            else:
+                new_inputs.append(f)
+        obs = [{'obligation': ob['full'], 'path': ob['path'], 'result': ob['result']} for r, ob in d['obs']]
+        if new_inputs:
+            f0 = dict(new_inputs[0])
+            f0['failed_obligations'] = obs
+            f0['other_failing_inputs'] = [{'kind': x.get('kind'), 'args': x.get('args'), 'ro_spec': x.get('ro_spec'), 'what': x.get('what')}
+                                          for x in new_inputs[1:]]
+            path = write_replay(prop, f0, None)
+            lines.append('VIOLATION property=%s replay=%s' % (prop, path))
+            violations += 1
+        elif d['obs'] and not d['inputs']:
+            # failed obligation(s), the bounded search on the real code found no failing input
+            r, ob = d['obs'][0]
+            ob = dict(ob)
+            ob['all_failed_obligations'] = obs
+            path = write_replay(prop, None, (r, ob))
+            lines.append('VIOLATION property=%s replay=%s no-failing-input-found' % (prop, path))
+            violations += 1
+        elif d['obs']:
+            # every failing input of this function is a listed known finding: the clause must still hold outside the
+            # listed regions -- which the bounded search confirmed; the undischarged obligation is reported in evidence
+            pass
     if tool_limits and exit_code == 0:
         for fn, tl in tool_limits:
             print('TOOL-LIMIT %s: %s (function not proved; bounded real-code check stands in)' % (fn, tl))
@@ -189,6 +217,7 @@ def run_property(prop, tier, jobs):
                 _z3v(), '; cvc5 1.0.3 + z3 4.8.12 cross-check on SMT-LIB' if tier == 'thorough' else ''),
             'solver_time_s': round(solver_time, 2),
             'tool_limits': [{'function': f, 'reason': t} for f, t in tool_limits],
+            'callee_contracts_assumed_not_proved': sorted(pending_contracts),
             'undischarged': [{'obligation': ob['full'], 'path': ob['path'], 'result': ob['result']} for r, ob in failing][:50],
             'vacuity_covers_refuted': len(vacuous),
             'extraction_drops': 'docstrings, type annotations, comments; logger calls are no-ops (A-LOG); message texts of exceptions/warnings are opaque strings',
@@ -199,7 +228,8 @@ def run_property(prop, tier, jobs):
             'rule': rc.get('rule', ''),
             'known_findings_printed': [l for l in lines if l.startswith('KNOWN-FINDING')],
         },
-        'assumptions': TRUSTED + ['assumed: %s' % ASSUMED_DOC.get(a, a) for a in sorted(assumed)] + rc.get('assumptions', []),
+        'assumptions': TRUSTED + ['assumed: %s' % ASSUMED_DOC.get(a, a) for a in sorted(assumed)] + rc.get('assumptions', [])
+        + ['contract of %s is assumed here (its body is not verified)' % q for q in sorted(pending_contracts)],
     }
     with open(os.path.join(VERIF, 'evidence', '%s.json' % prop), 'w') as f:
         json.dump(ev, f, indent=1)
@@ -241,6 +271,7 @@ def write_replay(prop, failure, obpair):
                    'source_sha256_16': r['sha'],
                    'note': 'the obligation is not discharged on the current source; the bounded search on the real code '
                            'found no failing input within its scope (see evidence bounded_real_code_check)',
+                   'all_failed_obligations': ob.get('all_failed_obligations'),
                    'smt2': ob.get('smt2')}, f, indent=1)
     return path
 
